@@ -140,6 +140,32 @@ def monitor_run(run):
     return hits
 
 
+def id_class(x):
+    """encoding class of an identifier (same table as harness/core/disc.go)"""
+    if 0xD800 <= x <= 0xDFFF:
+        return "surrogate"
+    if x == 0xFFFD:
+        return "replacement"
+    if x in (0xD7FF, 0xE000, 0xFFFE, 0xFFFF):
+        return "near-surrogate"
+    if x in (0x7F, 0x80, 0x7FF, 0x800):
+        return "utf8-boundary"
+    if x in (0x0A, 0x20, 0x2C, 0x5B, 0x5D):
+        return "separator"
+    return "other"
+
+
+def class_stats(universes):
+    per_id = collections.Counter(id_class(x) for u in universes for x in u)
+    several = collections.Counter()
+    for u in universes:
+        c = collections.Counter("surrogate/replacement" if id_class(x) in ("surrogate", "replacement") else id_class(x) for x in u)
+        for k, v in c.items():
+            if k != "other" and v >= 2:
+                several[k] += 1
+    return dict(identifiers=dict(per_id), universes_with_two_or_more_of_a_class=dict(several), universes=len(universes))
+
+
 def run(pid, tier, seed):
     chk = vlib.Check(pid, tier, seed)
     vlib.proof_stage(chk)
@@ -206,11 +232,13 @@ def run(pid, tier, seed):
             break
         mism += m
     chk.cov["mismatches"] = len(mism)
-    if mism and not chk.violations:
+    if mism:   # recorded even when a monitor has hit: the operation list is a deterministic replay, a whole run is not
         sc, j = mism[0]
         chk.violation("corr_%d.json" % sc["id"],
                       dict(what="correspondence TSS.Corr.DiscCorr.check_scen fails at operation %d (%s mode): the model of disc.Member "
                                 "no longer matches disc/discovery.go; the theorems of Props/C07.v rest on it" % (j, sc["mode"]),
+                           replay="core %s -seed %d, operation list %d" % ("disc-step" if sc["mode"] == "step" else "disc-sync",
+                                                                              seed if sc["mode"] == "step" else seed + 1, sc["id"]),
                            operation=sc["ops"][j], scenario=dict(sc, ops=sc["ops"][:j + 1])), no_input=True)
 
     # ---- evidence
@@ -234,7 +262,8 @@ def run(pid, tier, seed):
                        "broadcast, query broadcast, continuation argument, return class) compared with the Coq model; non-trivial = some view "
                        "stored, response sent, intersectedView non-empty, query or continuation reached; distinct by (configuration, "
                        "operation list). (b) whole runs of 2..6 configured members with real Synchronize goroutines over a seeded in-memory "
-                       "router (classes exact / exact with teardown: a member is no longer handed messages once its Synchronize is through / too few / "
+                       "router (identifiers incl. the UTF-16 surrogate block, U+FFFD, UTF-8 length boundaries and list separator bytes, several of a class "
+                       "per universe; classes exact / twins: four members two of which differ only within an encoding class, links between the halves late / exact with teardown: a member is no longer handed messages once its Synchronize is through / too few / "
                        "too many / with scripted Byzantine members), checked by monitors only; distinct by "
                        "configuration. evaluations = operations executed + member outcomes of whole runs")
     sync = [sc for sc in scen if sc["mode"] == "sync"]
@@ -250,6 +279,11 @@ def run(pid, tier, seed):
                           returns=dict(collections.Counter({1: "nil", 2: "context ended in the first loop", 3: "too many members",
                                                             4: "acknowledgements missing", 5: "queries missing", 6: "other"}[o["ret"]]
                                                            for sc in sync for o in sc["ops"] if o["ret"]))),
+        identifier_classes_operation_lists=class_stats([sc["members"] for sc in scen]),
+        identifier_classes_whole_runs=class_stats([r["members"] for r in runs]),
+        twin_views=dict(announced=sum(1 for o in ops if o["kind"] == "announce-twin"),
+                        intersected_after_twin_nonempty=sum(1 for sc in scen for a, b in zip(sc["ops"], sc["ops"][1:])
+                                                            if a["kind"] == "announce-twin" and b["op"] == "pass" and b["iv"])),
         pass2_nonempty=sum(1 for o in ops if o["op"] == "pass2" and o["iv"]),
         pass2_differs_from_live_pass=sum(1 for sc in scen for a, b in zip(sc["ops"], sc["ops"][1:])
                                          if a["op"] == "pass2" and b["op"] == "pass" and a["iv"] != b["iv"]),
